@@ -41,6 +41,7 @@ func (x *Exec) goCall(s *State, in *ssa.Go) {
 	if !ok || !isRepoFunc(fn) {
 		return
 	}
+	x.atCallAssertions(s, in, fn.String())
 	c := x.P.contractFor(fn)
 	if c == nil || (len(c.Requires) == 0 && len(c.ChanInvs) == 0) {
 		return
